@@ -102,10 +102,36 @@ def NackGenerator(rng, inst):
     return g
 
 
+class _Absorb:
+    """result of using an opaque object: callable, awaitable, falsy, absorbs every attribute"""
+    def __call__(self, *a, **kw):
+        return self
+
+    def __getattr__(self, name):
+        if name.startswith("__") and name.endswith("__"):
+            raise AttributeError(name)
+        return self
+
+    def __await__(self):
+        return iter(())
+
+    def __bool__(self):
+        return False
+
+    def __iter__(self):
+        return iter(())
+
+
 class _Endpoint:
-    """stand-in for an RTCRtpReceiver / RTCRtpSender: the router only stores and compares references"""
+    """stand-in for an object the contracts treat as an opaque reference (a receiver, a sender, a transport, an event):
+    stored and compared by identity; any method called on it does nothing"""
     def __init__(self, name):
         self.name = name
+
+    def __getattr__(self, attr):
+        if attr.startswith("__") and attr.endswith("__"):
+            raise AttributeError(attr)
+        return _Absorb()
 
     def __repr__(self):
         return f"<{self.name}>"
